@@ -188,7 +188,10 @@ pub fn run(input: &Value) -> Case {
         tags.push(format!("height={}", hb(*h)));
     }
     Case {
-        coq: format!("SIX {} {} {}", clist(coq_parents), clist(coq_imgs), coq_draws),
+        coq: format!("SIX {} {} {} {}", {
+            let b = bg.unwrap_or([0, 0, 0, 255]);
+            format!("({},{},{},{})", b[0], b[1], b[2], b[3])
+        }, clist(coq_parents), clist(coq_imgs), coq_draws),
         json: j,
         tags,
         nontrivial: max_colors >= 2 && heights.iter().any(|h| *h >= 6) && widths.iter().any(|w| *w >= 1),
@@ -318,7 +321,14 @@ fn gen_case(rng: &mut Rng, thorough: bool) -> Value {
     for _ in 0..rng.below(3) {
         draws.push(rng.below(n as u64) as usize);
     }
-    let bg = if rng.chance(1, 2) { json!([rng.byte(), rng.byte(), rng.byte(), 255]) } else { Value::Null };
+    let bg = if rng.chance(1, 2) {
+        // mostly opaque backgrounds, some translucent ones (un-premultiplication in the compositing)
+        let rb = rng.byte();
+        let a = if rng.chance(1, 4) { *rng.pick(&[0u8, 1, 127, 254, rb]) } else { 255 };
+        json!([rng.byte(), rng.byte(), rng.byte(), a])
+    } else {
+        Value::Null
+    };
     json!({"bg": bg, "imgs": imgs, "draws": draws})
 }
 
@@ -377,6 +387,26 @@ fn gen_crop_siblings(rng: &mut Rng, thorough: bool) -> Value {
     json!({"bg": Value::Null, "imgs": imgs, "draws": draws})
 }
 
+/// every pixel transparent, with many different colours and alphas, over an opaque or translucent
+/// background: exercises the bound of the compositing oracle against the exact linear-light mix
+fn gen_alpha_sweep(rng: &mut Rng) -> Value {
+    let w = 8 + rng.below(33) as usize;
+    let h = 6;
+    let e = [0u8, 1, 2, 10, 11, 12, 13, 127, 128, 200, 253, 254, 255];
+    let data: Vec<Value> = (0..w * h)
+        .map(|_| {
+            let c = |rng: &mut Rng| if rng.chance(1, 3) { *rng.pick(&e) } else { rng.byte() };
+            let a = if rng.chance(1, 3) { *rng.pick(&[0u8, 1, 2, 127, 128, 253, 254]) } else { rng.byte().min(254) };
+            json!([c(rng), c(rng), c(rng), a])
+        })
+        .collect();
+    let rb = rng.byte();
+    let ba = if rng.chance(1, 3) { *rng.pick(&[0u8, 1, 127, 254, rb]) } else { 255 };
+    let c = |rng: &mut Rng| if rng.chance(1, 3) { *rng.pick(&e) } else { rng.byte() };
+    let bg = if rng.chance(1, 5) { Value::Null } else { json!([c(rng), c(rng), c(rng), ba]) };
+    json!({"bg": bg, "imgs": [{"w": w, "h": h, "data": data, "crop": Value::Null}], "draws": [0]})
+}
+
 /// exhaustive validation of the regenerated tables against the real code:
 /// scale(pre(x)) through one-colour opaque images, scale(y) through fully transparent images over bg
 fn table_cases() -> Vec<Value> {
@@ -405,6 +435,7 @@ pub fn generate(rng: &mut Rng, n: usize, tier: &str) -> Vec<Value> {
     for i in 0..n {
         v.push(match i % 26 {
             7 => gen_wide(rng),
+            11 | 20 => gen_alpha_sweep(rng),
             3 | 16 => gen_crop_siblings(rng, thorough),
             _ => gen_case(rng, thorough),
         });
